@@ -256,6 +256,18 @@ func (sh *Shaper) callShape(c *ssa.CallCommon) *Shape {
 	return s
 }
 
+// mkFld selects a field; selecting from a literal yields the field's value.
+func mkFld(base *Shape, name string) *Shape {
+	if base.K == "lit" {
+		for i, f := range base.F {
+			if f == name {
+				return base.A[i]
+			}
+		}
+	}
+	return &Shape{K: "fld", S: name, A: []*Shape{base}}
+}
+
 func mkPhi(alts []*Shape) *Shape {
 	seen := map[string]*Shape{}
 	for _, a := range alts {
@@ -302,7 +314,7 @@ func (sh *Shaper) of(v ssa.Value) *Shape {
 	case *ssa.Global:
 		pk := ""
 		if v.Pkg != nil {
-			pk = shortPkg(v.Pkg.Pkg.Path())
+			pk = v.Pkg.Pkg.Name()
 		}
 		return atom("ref", "%"+pk+"."+v.Name())
 	case *ssa.Function:
@@ -312,9 +324,9 @@ func (sh *Shaper) of(v ssa.Value) *Shape {
 	case *ssa.Alloc:
 		return atom("ref", "&"+allocName(v))
 	case *ssa.FieldAddr:
-		return &Shape{K: "fld", S: fieldName(v.X.Type(), v.Field), A: []*Shape{sh.addrBase(v.X)}}
+		return mkFld(sh.addrBase(v.X), fieldName(v.X.Type(), v.Field))
 	case *ssa.Field:
-		return &Shape{K: "fld", S: fieldName(v.X.Type(), v.Field), A: []*Shape{sh.Of(v.X)}}
+		return mkFld(sh.Of(v.X), fieldName(v.X.Type(), v.Field))
 	case *ssa.IndexAddr:
 		return &Shape{K: "idx", A: []*Shape{sh.addrBase(v.X), sh.Of(v.Index)}}
 	case *ssa.Index:
@@ -324,6 +336,9 @@ func (sh *Shaper) of(v ssa.Value) *Shape {
 	case *ssa.UnOp:
 		switch v.Op {
 		case token.MUL:
+			if rs := reachingStore(v); rs != nil {
+				return sh.Of(rs)
+			}
 			return sh.load(v.X)
 		case token.ARROW:
 			return &Shape{K: "un", S: "<-", A: []*Shape{sh.Of(v.X)}}
@@ -344,6 +359,17 @@ func (sh *Shaper) of(v ssa.Value) *Shape {
 					return &Shape{K: "rv", A: []*Shape{sh.Of(r.X)}}
 				}
 				return &Shape{K: "ext", S: "0", A: []*Shape{{K: "rk", A: []*Shape{sh.Of(r.X)}}}}
+			}
+		}
+		if sel, ok := v.Tuple.(*ssa.Select); ok && v.Index >= 2 {
+			k := v.Index - 2
+			for _, st := range sel.States {
+				if st.Dir == types.RecvOnly {
+					if k == 0 {
+						return &Shape{K: "un", S: "<-", A: []*Shape{sh.Of(st.Chan)}}
+					}
+					k--
+				}
 			}
 		}
 		return &Shape{K: "ext", S: strconv.Itoa(v.Index), A: []*Shape{sh.Of(v.Tuple)}}
@@ -385,6 +411,50 @@ func (sh *Shaper) of(v ssa.Value) *Shape {
 		return atom("unk", "select")
 	}
 	return atom("unk", fmt.Sprintf("%T", v))
+}
+
+// reachingStore finds, for a load of a local variable, the unique store that
+// reaches it along straight-line code (same block, then single-predecessor
+// chain). It returns nil when it cannot tell.
+func reachingStore(ld *ssa.UnOp) ssa.Value {
+	a, ok := ld.X.(*ssa.Alloc)
+	if !ok {
+		return nil
+	}
+	// the variable's address must not be handed to anything that could write it
+	if a.Referrers() != nil {
+		for _, r := range *a.Referrers() {
+			switch r := r.(type) {
+			case *ssa.Store:
+				if r.Addr != a {
+					return nil
+				}
+			case *ssa.UnOp, *ssa.DebugRef:
+			default:
+				return nil
+			}
+		}
+	}
+	b := ld.Block()
+	idx := -1
+	for k, in := range b.Instrs {
+		if in == ssa.Instruction(ld) {
+			idx = k
+		}
+	}
+	for hops := 0; hops < 8; hops++ {
+		for k := idx - 1; k >= 0; k-- {
+			if st, ok := b.Instrs[k].(*ssa.Store); ok && st.Addr == a {
+				return st.Val
+			}
+		}
+		if len(b.Preds) != 1 {
+			return nil
+		}
+		b = b.Preds[0]
+		idx = len(b.Instrs)
+	}
+	return nil
 }
 
 func allocName(a *ssa.Alloc) string {
@@ -581,6 +651,43 @@ func (p *pparser) expr() *Shape {
 			p.i++
 		}
 		cur = atom("ref", p.s[j:p.i])
+	case strings.HasPrefix(p.s[p.i:], "lit:"):
+		p.i += 4
+		j := p.i
+		for p.i < len(p.s) && p.s[p.i] != '{' {
+			p.i++
+		}
+		l := &Shape{K: "lit", S: p.s[j:p.i]}
+		p.expect('{')
+		for {
+			p.ws()
+			if p.s[p.i] == '}' {
+				p.i++
+				break
+			}
+			if strings.HasPrefix(p.s[p.i:], "$...") {
+				p.i += 4
+				l.F = append(l.F, "$...")
+				l.A = append(l.A, atom("var", "$_"))
+			} else {
+				j := p.i
+				for p.i < len(p.s) && p.s[p.i] != ':' {
+					p.i++
+				}
+				name := p.s[j:p.i]
+				p.expect(':')
+				l.F = append(l.F, name)
+				l.A = append(l.A, p.expr())
+			}
+			p.ws()
+			if p.s[p.i] == ',' {
+				p.i++
+			}
+		}
+		cur = l
+	case strings.HasPrefix(p.s[p.i:], "$..."):
+		p.i += 4
+		return atom("var", "$...")
 	case c == '$':
 		j := p.i
 		p.i++
@@ -712,6 +819,36 @@ func Unify(pat, s *Shape, b Bind) bool {
 		b[pat.S] = s
 		return true
 	}
+	if isAtomKind(pat.K) && isAtomKind(s.K) {
+		return pat.S == s.S
+	}
+	if pat.K == "lit" && s.K == "lit" {
+		if pat.S != s.S && pat.S != "$_" {
+			return false
+		}
+		open := false
+		n := 0
+		for i, f := range pat.F {
+			if f == "$..." {
+				open = true
+				continue
+			}
+			n++
+			found := false
+			for k, sf := range s.F {
+				if sf == f {
+					found = true
+					if !Unify(pat.A[i], s.A[k], b) {
+						return false
+					}
+				}
+			}
+			if !found {
+				return false
+			}
+		}
+		return open || n == len(s.F)
+	}
 	if pat.K != s.K {
 		// a pattern matches a phi if it matches every alternative the same way
 		if s.K == "phi" && pat.K != "phi" {
@@ -758,6 +895,10 @@ func Unify(pat, s *Shape, b Bind) bool {
 		}
 	}
 	return true
+}
+
+func isAtomKind(k string) bool {
+	return k == "const" || k == "param" || k == "free" || k == "ref" || k == "unk"
 }
 
 // Match reports whether s matches the textual pattern.
